@@ -32,4 +32,4 @@ Fixpoint undo_times (k : nat) (img : image) (u : undo) : outcome (image * undo) 
 
 Extraction Language OCaml.
 Extraction "../ocaml/c11/model.ml" dxe_clean remove_run unwind undo_times script_oracle boots_iff
-  fixed asis pred_of_code testres_of_code guid_pred mkFile.
+  fixed asis pred_of_code testres_of_code guid_pred file_pred mkFile.
